@@ -93,6 +93,41 @@ def _rand_steps(rng, tree, start, nsteps, p_miss, canon):
     return steps
 
 
+def _rand_mixed(rng, tree, nodes):
+    """(start node, ast): a strict path on which BOTH a failing lookup and a slice step written as 0 can be
+    reached — a wide slice first, then names that exist below some of the selected children only, more wide
+    slices, and a zero step at a random place among them (so that the two errors arise at equal or at
+    different slice depths, in either sequence order)"""
+    cands = [x for x in nodes if len(x["kids"]) >= 2 and any(k["kids"] for k in x["kids"])]
+    start = rng.choice(cands) if cands else tree
+    pool = []
+    for k in start["kids"]:
+        for j, g in enumerate(k["kids"]):
+            s = g["name"] if k["k"] in ("d", "c") else str(j)
+            if s and cm.good_name(s):
+                pool.append(s)
+        for g in k["kids"]:
+            for j2, h in enumerate(g["kids"]):
+                s = h["name"] if g["k"] in ("d", "c") else str(j2)
+                if s and cm.good_name(s) and rng.random() < 0.3:
+                    pool.append(s)
+    pool = pool or ["a", "0"]
+    follow = []
+    for _ in range(rng.choice([1, 2, 2, 3])):
+        r = rng.random()
+        if r < 0.55:
+            s = rng.choice(pool) if rng.random() < 0.85 else "nosuch"
+            follow.append({"t": "name", "s": s, "br": False, "sep": rng.random() < 0.2, "escall": False})
+        elif r < 0.9:
+            follow.append({"t": "slice", "a": None, "b": None, "sep": False})
+        else:
+            follow.append({"t": "here"})
+    follow.insert(rng.randrange(len(follow) + 1),
+                  {"t": "slice", "a": rng.choice([None, None, 0, 1]), "b": None, "c": {"v": 0}, "sep": False})
+    steps = [{"t": "slice", "a": None, "b": None, "sep": False}] + follow
+    return start, {"top": False, "trail": False, "steps": steps}
+
+
 def _make_canon(steps):
     """move every `..` to the front (the restriction of the main theorem)"""
     ups = [s for s in steps if s["t"] == "up"]
@@ -204,6 +239,17 @@ def _denote_obs(ast, start, label, single, strict):
     return cm.single_of(strict, r) if single else r
 
 
+def _ordered_obs(path, start, label, strict):
+    try:
+        r = cm.ord_denote(path, start, strict)
+    except Exception as e:  # noqa: BLE001 — tokenize() raising ValueError is the observation
+        cm.reraise_timeout(e)
+        return {"error": cm.exc_name(e)}
+    if r[0] == "err":
+        return {"error": r[2], "depth": r[1]}
+    return {"list": cm.labels(label, r[1])}
+
+
 def _removed_ids(case, byid):
     return frozenset(id(byid[r["id"]]) for r in case.get("removed", []))
 
@@ -250,6 +296,10 @@ class C14(Property):
     title = "Path expressions select what the documented path syntax denotes"
     proof_module = "Proofs.C14"
     theorems = [
+        "Flatland.C14.Proofs.evalOps_denotes_gen",
+        "Flatland.C14.Proofs.find_denotes_gen",
+        "Flatland.C14.Proofs.denOrd_forget_of_uni",
+        "Flatland.C14.Proofs.evalOps_denotes_cor",
         "Flatland.C14.Proofs.evalOps_denotes",
         "Flatland.C14.Proofs.find_error",
         "Flatland.C14.Proofs.find_denotes",
@@ -289,8 +339,9 @@ class C14(Property):
         "generated Dicts are SparseDicts); every mapping child is stored under its own name (key = name)",
         "a slice step written as 0 raises ValueError when it is reached (9884fd3; zero_step_raises, "
         "find_print_denotes_lax); with strict lookups AND such a step a path can raise LookupError or ValueError, "
-        "whichever element is evaluated first: the strict theorems assume no zero step (UniSteps), the oracle then "
-        "accepts either error kind that some element raises",
+        "and the property text does not say which: the op-list theorems (evalOps_denotes_gen, find_denotes_gen) state "
+        "the precedence the code has (slice depth, then sequence order), the AST-level strict theorems assume no zero "
+        "step (UniSteps), the oracle accepts either error kind that some element raises, the correspondence is exact",
         "a start element that was removed from its List (popped / deleted / replaced) is outside model A: oracle "
         "only (expected: it is the root of its own tree); the expression cache is emptied by the oracle when full",
     ]
@@ -374,6 +425,20 @@ class C14(Property):
             {"t": "name", "s": "l", "br": False, "sep": False, "escall": False},
             {"t": "slice", "a": 1, "b": None, "c": {"v": 0}, "sep": False}]}
         out.append(self._case(d, 0, "l[1::0]", False, False, astz2))
+        # strict lookups AND a zero step on the same path (evalOps_denotes_gen; the two `example`s beside it):
+        # equal depth -> the earlier one in sequence order (ValueError below x/a before LookupError below y);
+        # different depths -> the shallower one (LookupError at depth 1 before ValueError at depth 2)
+        mixed = cm.number({"k": "d", "name": "r", "kids": [
+            {"k": "d", "name": "x", "kids": [{"k": "l", "name": "a", "member": {"k": "s", "name": None},
+                                              "kids": [{"k": "s", "name": None, "kids": []}]}]},
+            {"k": "d", "name": "y", "kids": [{"k": "s", "name": "b", "kids": []}]}]})
+        nm_a = {"t": "name", "s": "a", "br": False, "sep": False, "escall": False}
+        sl_all = {"t": "slice", "a": None, "b": None, "sep": False}
+        sl_zero = {"t": "slice", "a": None, "b": None, "c": {"v": 0}, "sep": False}
+        for steps in ([sl_all, nm_a, sl_zero], [sl_all, nm_a, sl_all, sl_zero], [sl_all, sl_zero, nm_a]):
+            astm = {"top": False, "trail": False, "steps": copy.deepcopy(steps)}
+            for strict_ in (True, False):
+                out.append(self._case(mixed, 0, cm.print_path(astm), strict_, False, astm))
         # a name ending in a backslash as the very last step (spellable there only)
         dbs = cm.number({"k": "d", "name": "r", "kids": [{"k": "s", "name": "x\\", "kids": []},
                                                           {"k": "d", "name": "a", "kids": [{"k": "s", "name": "\\", "kids": []}]}]})
@@ -488,6 +553,9 @@ class C14(Property):
                 if r < 0.15:
                     path = _rand_malformed(rng, tree)
                     yield self._case(tree, start["id"], path, strict, single, None, rng.choice([None] * 9 + ["list"]), init, history)
+                elif r < 0.21:
+                    start, ast = _rand_mixed(rng, tree, nodes)
+                    yield self._case(tree, start["id"], cm.print_path(ast), rng.random() < 0.9, single, ast, None, init, history)
                 else:
                     top = rng.random() < (0.7 if from_grafted else 0.3)
                     walk_from = tree if top else start
@@ -511,7 +579,13 @@ class C14(Property):
             "ops": _ops_obs(case["path"]),
             "result": _find_obs(start, label, case["path"], case["single"], case["strict"], case.get("as_segments")),
         }
+        if self.has_model(case):
+            # spec `denOrd` (depth-first reading, errors ranked by slice depth then sequence order) transcribed
+            # over the documented navigation of the real elements; the model returns Lean's `denOrd`
+            obs["ordered"] = _ordered_obs(case["path"], start, label, case["strict"])
         ast = case.get("ast")
+        if ast is not None and cm.ast_spellable(ast):
+            obs["_kinds"] = sorted(cm.doc_outcomes(ast, start, case["strict"], _removed_ids(case, byid))[1])
         if ast is not None:
             obs["printed"] = cm.enc(cm.print_path(ast))
             obs["denoted"] = _denote_obs(ast, start, label, case["single"], case["strict"])
@@ -656,6 +730,17 @@ class C14(Property):
                 t.append("step:%s" % s["t"])
             if cm.has_zero_step(ast):
                 t.append("zero-stride")
+                if case["strict"]:
+                    t.append("zero-stride+strict")
+            kinds = obs.get("_kinds") or []
+            if len(kinds) == 2:
+                # a strict lookup fails on one element AND a zero step is reached on another: the territory of
+                # evalOps_denotes_gen / find_denotes_gen (the old theorems assumed it away)
+                t.append("both-error-kinds-possible")
+                t.append("both-error-kinds-possible:raised=%s" % r.get("error"))
+                o = obs.get("ordered") or {}
+                if "depth" in o:
+                    t.append("both-error-kinds-possible:depth=%d" % min(o["depth"], 3))
             if ast["steps"] and ast["steps"][-1]["t"] == "name" and ast["steps"][-1]["s"].endswith("\\"):
                 t.append("last-name-ends-in-backslash")
             if ast["top"]:
@@ -718,20 +803,32 @@ C14.rule = (
     "trailing slash, optional escapes), 75% of them with all `..` first (the theorem's Canon domain); 15% malformed "
     "strings over path punctuation for the tokenizer; 25% of the trees are reached through a history of List operations "
     "with path evaluations in between and with members that are built detached, queried and then grafted (such "
-    "elements are preferred start elements, 70% absolute paths); non-trivial = AST of >= 2 steps, or >= 2 ops, or an error")
+    "elements are preferred start elements, 70% absolute paths); 6% of the cases are 'mixed' paths (a wide slice, then "
+    "names that exist below some of the selected children only, more slices and a slice step written as 0 at a random "
+    "place, 90% strict) so that a failing lookup and a zero step are reachable in one evaluation, at equal and at "
+    "different slice depths (tags both-error-kinds-possible:*); non-trivial = AST of >= 2 steps, or >= 2 ops, or an error")
 C14.level_note = (
-    "Proved in Lean for all trees/starts/single, for evaluations that can raise one kind of error only (no slice "
-    "step written as 0, or non-strict lookups: Uni/UniSteps): FIFO work list = depth-first reading "
-    "(evalOps_denotes); find = the single-table of that reading of tokenize(path) for every string that compiles "
-    "(find_denotes; single_spec restates the match of the model's find, i.e. holds by construction); compiled AST "
+    "Proved in Lean for all trees/starts/single/strict and EVERY op list (h5, no Uni hypothesis): the FIFO work list "
+    "= the depth-first reading with the precedence of errors made explicit (evalOps_denotes_gen, spec `denOrd`: every "
+    "error carries the number of slice steps passed before it; the smallest depth wins, on a tie the first in sequence "
+    "order — the evaluator finishes all matches of one slice step before continuing below any of them); find = the "
+    "single-table of that reading of tokenize(path) for every string that compiles (find_denotes_gen); when only one "
+    "kind of error can arise (Uni: no slice step written as 0, or non-strict lookups) the precedence is immaterial "
+    "and `denOrd` forgets to the plain reading `denOps` (denOrd_forget_of_uni, proved directly; evalOps_denotes_cor, "
+    "evalOps_denotes, find_denotes; single_spec restates the match of the model's find, i.e. holds by construction); "
+    "the AST-level theorems below keep UniSteps, because spec B's step-by-step `denote` meets errors in yet another "
+    "order (step-major) — with strict lookups AND a zero step the documentation does not say which exception is "
+    "raised, so the oracle accepts either kind that some element raises, while the correspondence compares the "
+    "exception exactly (key `result`) and compares Lean's `denOrd` (outcome and error depth) with a Python "
+    "transcription of `denOrd` over the documented navigation of the real elements (key `ordered`); compiled AST "
     "= spec denotation incl. [-n], slice defaults, zero strides (denOps_compile); tokenizer∘printer for the whole "
     "concrete grammar incl. zero strides and a name ending in a backslash as last step (tokenize_print); end to "
     "end find(print p) = denote p on the Canon domain (find_print_denotes, find_print_denotes_lax) and = denote "
     "(cancel p) for every path (find_print_cancel, the exact content of KF-C14-a; C14_full_fails is its negation "
     "witness); a step written as 0 raises ValueError when reached, strict or not (zero_step_raises, "
     "C14_zero_step_ok — KF-C14-b is closed by 9884fd3); results strictly increasing in document order "
-    "(find_sorted). Not proved: strict lookups on a path that also has a zero step (LookupError vs ValueError "
-    "depends on evaluation order; correspondence + oracle accepting either). Tied to the code by correspondence "
+    "(find_sorted). Not proved at the AST level: strict lookups on a path that also has a zero step (denOps_compile / "
+    "find_print_denotes keep UniSteps; the op-list theorems above cover it). Tied to the code by correspondence "
     "only: scan = _tokenize_re.findall (regex text pinned; exhaustive over all strings of length <= 4/5 over "
     "`/.[]:-01a\\`), pyInt = int() and pySlice = list slicing (exhaustive small scopes against Python itself), the "
     "element-tree navigation (_index, parent, root, children) of the real classes; start elements removed from "
